@@ -10,25 +10,37 @@ Record sobs := mksobs {
   so_adverts : N; so_early_adverts : N
 }.
 (* offered: every piece is offered by at least one peer that follows the protocol and stays *)
-Inductive case := CSys (offered : bool) (o : option sobs).     (* None: the manager panicked *)
+(* sole: the scenario has a piece whose only staying holder is one honest peer (generator's flag);
+   have: the observed final statuses (true = Have) *)
+Inductive case := CSys (offered : bool) (sole : option N) (have : list bool) (o : option sobs).     (* o = None: the manager panicked *)
 
 (* C01: whatever the peers did, only verified data the torrent lists is on disk, a piece counts as owned only
    with its file present, nothing is advertised before that; no panic *)
 Definition o01 (c : case) : bool :=
   match c with
-  | CSys _ None => false
-  | CSys _ (Some o) =>
+  | CSys _ _ _ None => false
+  | CSys _ _ _ (Some o) =>
       (so_bad_files o =? 0) && (so_have_without_file o =? 0) && (so_early_adverts o =? 0)
       && (so_task_panics o =? 0) && negb (so_manager_failed o)
   end.
 (* C02: an honest swarm offering every piece leads to a complete, identical download, without crash or hang *)
 Definition o02 (c : case) : bool :=
   match c with
-  | CSys _ None => false
-  | CSys offered (Some o) =>
+  | CSys _ _ _ None => false
+  | CSys offered _ _ (Some o) =>
       (so_task_panics o =? 0) && negb (so_manager_failed o) &&
       (negb offered || (so_all_have o && so_extractor_spawned o && match so_extracted_same o with Some true => true | _ => false end))
       && (negb (so_all_have o) || match so_extracted_same o with Some true => true | _ => false end)
   end.
 Definition codes01 (cs : list case) : list N := map (fun c => if o01 c then 0 else 2) cs.
-Definition codes02 (cs : list case) : list N := map (fun c => if o02 c then 0 else 2) cs.
+(* known-finding class 1 of C02 (sole-holder-idle-after-reserver-left): at least eleven pieces (so that more than
+   ten were missing, no end-game), nothing crashed, and exactly the sole-holder's piece is what is still missing *)
+Definition class02 (c : case) : N :=
+  match c with
+  | CSys _ (Some p) have (Some o) =>
+      if (11 <=? len have) && (so_task_panics o =? 0) && negb (so_manager_failed o)
+         && list_eqb Bool.eqb have (map (fun i => negb (N.of_nat i =? p)) (seq 0 (length have)))
+      then 1 else 0
+  | _ => 0
+  end.
+Definition codes02 (cs : list case) : list N := map (fun c => if o02 c then 0 else 2 + 4 * class02 c) cs.
